@@ -36,8 +36,9 @@ type c13 struct {
 	endPeeked               bool
 	shifted, freed, sinceSL int
 
-	helds []held
-	facts string
+	helds   []held
+	opCount int
+	facts   string
 
 	// reflection probes
 	rv        reflect.Value
@@ -143,7 +144,13 @@ func (m *c13) afterOp(op int) *core.Violation {
 		m.lastReads = m.reads()
 	}
 	m.ctx.SigAdd(uint64(op)<<8 | uint64(refill))
-	// held-slice integrity
+	// held-slice integrity: the library writes buffer memory only while reading, so every
+	// held slice is compared after each operation that caused a Read and after Shift/Free/
+	// ShiftLen, and otherwise on every 8th operation (and always for short histories)
+	m.opCount++
+	if refill == 0 && op != opShift && op != opShiftExt && op != opFree && op != opShiftLen && m.opCount > 64 && m.opCount%8 != 0 {
+		return nil
+	}
 	j := 0
 	for i := range m.helds {
 		h := &m.helds[i]
